@@ -452,8 +452,40 @@ def make_program(cfg, shared, user_may_raise=True, track_mats=False):
             # C06: a restart that performs no iteration returns the checkpoint's state and pairs
             ck = ctx.ck
             P6 = ("C06", "C18", "C05")
-            run.oblige("main.minimize_lbfgsb::" + where + "::same_pairs", res.f.get("hess_inv") is ck.f["hess_inv"],
-                       P6, backend="structural")
+            # "the same correction pairs": the checkpoint's operator itself, or - when the restart asks for a smaller
+            # memory than the checkpoint carries - its most recent maxcor pairs (C06: "maxcor kept or reduced";
+            # C18: "at most maxcor" holds for ANY result)
+            hi, cki = res.f.get("hess_inv"), ck.f["hess_inv"]
+            rows_of = uf("rows", Vec, I)
+            mc = zint(ctx.ints["maxcor"])
+            if hi is cki:
+                same, nrows = True, rows_of(run.heap[cki.f["sk"].ref])
+            elif isinstance(hi, Obj) and all(isinstance(hi.f.get(k), Arr) for k in ("sk", "yk")) and all(
+                    isinstance(run.heap.get(hi.f[k].ref), MatTerm) for k in ("sk", "yk")):
+                # rebuilt from the restored deques (equal to the checkpoint's most recent pairs by the contract of
+                # initialize_X_and_G): the general clauses on an operator apply
+                def add6(name, f, props, backend="z3"):
+                    run.oblige("main.minimize_lbfgsb::" + name, f, tuple(props) + ("C06",), backend=backend)
+                hess_inv_clauses(run, ctx, hi, env.get("X"), env.get("G"), where, add6)
+                same, nrows = True, None
+            elif isinstance(hi, Obj) and all(isinstance(hi.f.get(k), Arr) for k in ("sk", "yk")):
+                nrows = rows_of(run.heap[hi.f["sk"].ref])
+                same = True
+                for k in ("sk", "yk"):
+                    t, src = run.heap[hi.f[k].ref], run.heap[cki.f[k].ref]
+                    tail = (z3.is_app(t) and t.decl().name().startswith("slice[False,True,True]")
+                            and z3.eq(t.arg(0), src) and run.entails(rows_of(t) == mc))
+                    same = same and bool(tail)
+                    if not tail and __import__("os").environ.get("PYVC_DEBUG"):
+                        print("DEBUG tail", k, t.decl().name() if z3.is_app(t) else t, "|", src, "|",
+                              [str(a)[:80] for a in t.children()][:4], flush=True)
+            else:
+                same, nrows = False, z3.IntVal(-1)
+            run.oblige("main.minimize_lbfgsb::" + where + "::same_pairs", same, P6, backend="structural",
+                       info="the result's pairs are neither the checkpoint's operator nor its most recent maxcor pairs")
+            if nrows is not None:
+                run.oblige("main.minimize_lbfgsb::" + where + "::hess_inv::rows_le_maxcor",
+                           z3.And(nrows >= 0, nrows <= mc), ("C18", "C06", "C10"))
             rx = res.f.get("x")
             run.oblige("main.minimize_lbfgsb::" + where + "::same_x",
                        run.heap[rx.ref] == run.heap[ck.f["x"].ref] if isinstance(rx, Arr) else False, P6)
